@@ -23,9 +23,9 @@ run_demo() { # returns 0 if all demo tests pass
   done
   return $ok
 }
-git -C $W apply --check $SRC/patch.diff || { echo "FAIL: patch does not apply"; cleanup; exit 1; }
+git -C $W apply --check $SRC/patch.diff 2>/dev/null || git -C $W apply --check -3 $SRC/patch.diff || { echo "FAIL: patch does not apply"; cleanup; exit 1; }
 run_demo; r_without=$?
-git -C $W apply $SRC/patch.diff
+git -C $W apply $SRC/patch.diff 2>/dev/null || git -C $W apply -3 $SRC/patch.diff
 for d in $demos; do mv $W/marwood/tests/$(basename $d) $W/; done      # suite unedited: demo files out of the way
 (cd $W && CARGO_TARGET_DIR=/tmp/seedtarget-off timeout 2400 cargo test --workspace --no-fail-fast --offline > $W/suite.log 2>&1); r_suite=$?
 suite_summary=$(grep -E "^test result" $W/suite.log | awk '{p+=$4; f+=$6} END {print p" passed, "f" failed"}')
